@@ -50,13 +50,14 @@ def role_of(var):
     ab = split_cmp(var)
     if ab:
         a, b = ab
-        stored_a = 'StoredPoint::manifest' in a
-        stored_b = 'StoredPoint::manifest' in b
+        st_rx = re.compile(r'^call:StoredPoint::manifest\(.*\)@Some\.0\.(manifest_number|this_update)$')
+        stored_a = bool(st_rx.match(a))
+        stored_b = bool(st_rx.match(b))
         if stored_a == stored_b:
             return None, False
         other, st, mir = (b, a, True) if stored_a else (a, b, False)
-        fld = 'num' if ('manifest_number' in other and 'manifest_number' in st) else \
-              ('time' if ('this_update' in other and 'this_update' in st) else None)
+        fld = 'num' if (other.startswith('call:ManifestContent::manifest_number') and st.endswith('.manifest_number')) else \
+              ('time' if (other.startswith('call:ManifestContent::this_update') and st.endswith('.this_update')) else None)
         if fld is None:
             return None, False
         decoded = 'Manifest::content' in other or 'Manifest::decode' in other
